@@ -148,8 +148,10 @@ FILE *make_temp_file(char **filename) {
 
     err3:
 	close(fd);
+	unlink(*filename);
     err2:
 	free(*filename);
+	*filename = NULL;
     err:
 	return NULL;
 }
